@@ -757,6 +757,8 @@ class Container:
             amount_to_add = Unit.convert(source, quantity, 'U')
         else:
             amount_to_add = Unit.convert(source, quantity, config.moles_storage_unit)
+        if round(volume_to_add, config.internal_precision) < 0 or round(amount_to_add, config.internal_precision) < 0:
+            raise ValueError("Quantity to add must not be negative.")
         new_volume = round(self.volume + volume_to_add, config.internal_precision)
         if new_volume > self.max_volume:
             raise ValueError("Exceeded maximum volume")
@@ -808,6 +810,13 @@ class Container:
             ratio = quantity_to_transfer / total_activity
         else:
             raise ValueError("Invalid quantity unit.")
+
+        if ratio < 0:
+            raise ValueError("Quantity to transfer must not be negative.")
+        if round(ratio, config.internal_precision) > 1:
+            raise ValueError(f"Not enough mixture left in source container ({source_container.name}).")
+        # a ratio above 1 within the internal precision is representation error
+        ratio = min(ratio, 1)
 
         source_container, to = deepcopy(source_container), deepcopy(self)
         for substance, amount in source_container.contents.items():
